@@ -136,6 +136,14 @@ def run(tier, replay=None):
         dsc, isc = ([rp], []) if rp["api"] in (0, 1) else ([], [rp])
     else:
         dsc, isc = gen_deflate(tier, rng), gen_inflate(tier, rng)
+    # the control state machines themselves, model-checked (all reachable states, every environment choice); runs beside the harness
+    mcjobs = []
+    if not replay:
+        import concurrent.futures as cf
+        mcjobs = [("DeflateStream", "mc/MCDeflateStream", None)] + [("InflateStream[%s]" % m, "mc/MCInflateStream", "MCInflateStream_%s.cfg" % m)
+                  for m in (["RAW", "GZIP", "ZLIB", "GZIP_NO_HDR_VER", "ZLIB_NO_HDR"] + (["GZIP_NO_HDR", "ZLIB_NO_HDR_VER"] if tier == "thorough" else []))]
+        mcex = cf.ThreadPoolExecutor(3)
+        mcfut = mcex.map(lambda j: tlc_cached(j[1], cfg=j[2], wd=wd, workers=4, timeout=1500, xmx="2g", gc="serial"), mcjobs)
     calls = 0
     fams = {}
     out = {}
@@ -150,6 +158,11 @@ def run(tier, replay=None):
         for s in scns:
             if len(by[s["scn"]]["calls"]) >= 2: fams[(name, s["meta"]["family"], s["level"], s["wrap"], s["mem"])] = 1
     nd, ni = len(dsc), len(isc)
+    models = {}
+    if mcjobs:
+        for (name, mod, cfg), r in zip(mcjobs, mcfut):
+            models[name] = {"distinct_states": r["distinct"], "states_generated": r["generated"], "reused_result_for_unchanged_spec": r["cached"]}
+        mcex.shutdown()
     mc = igz.model_coverage(out["deflate"][1]) if "deflate" in out else {}
     if mc:
         import verif as _v
@@ -159,6 +172,8 @@ def run(tier, replay=None):
            "deflate_scenarios": nd, "inflate_scenarios": ni,
            "state_machine_conformance": {"model": "spec/DeflateStreamOps.tla (tabulated by spec/gen/GenDeflateStream.tla)", "calls_not_in_model": igz.drift_count(out["deflate"][1] if "deflate" in out else {}),
                                          "model_transition_coverage": dict({k: x for k, x in mc.items() if not k.startswith("_")}, **(igz.key_coverage(mc) if mc else {}))},
+           "control_models_checked": models,
+           "inflate_state_machine_conformance": igz.inflate_conformance(out["inflate"][1]) if "inflate" in out else {},
            "rule": "call histories: every single split point of input (all for n<=40/48, boundary+random points beyond), (in-chunk,out-chunk) pairs from {1,2,7,8,9,16,17,33,256,257,...}, random schedules with flush-mode changes and end_of_stream announced on a later empty call, "
                    "refill-before-drain with 1..20-byte output, three chunk-memory disciplines (contiguous / fresh mapping unmapped when consumed / recycled and scribbled); compression traces are judged by TraceDeflate.tla "
                    "(accounting, progress, END reached, final stream decodes to the concatenated input); decompression traces (zlib/gzip-made streams in all 7 modes, one-shot and streaming) by TraceInflate.tla against the spec's decode of the same stream "
